@@ -175,6 +175,13 @@ class DefSyms:
             return z3.BoolVal(False)
         if kind == 'ALL' and len(canon) == 1 and z3.is_true(canon[0]):
             return z3.BoolVal(True)
+        if kind in ('ALL', 'ANY') and len(canon) == 1:
+            # a body that is valid / unsatisfiable for every element folds to a constant (e.g. a guard implied by the filter)
+            sol = z3.Solver()
+            sol.set('timeout', 300)
+            sol.add(z3.Not(canon[0]) if kind == 'ALL' else canon[0])
+            if sol.check() == z3.unsat:
+                return z3.BoolVal(kind == 'ALL')
         if kind == 'COUNT' and any(z3.is_false(c) for c in canon):
             return z3.IntVal(0)
         free = self.free_consts(canon, {p.get_id() for p in phs})
